@@ -1,0 +1,77 @@
+//go:build verif
+
+package auth
+
+import (
+	"sort"
+	"time"
+)
+
+// Verification hooks (build tag "verif" only). They expose the session table
+// to an external harness and let it move stored instants, so that session
+// expiry can be driven by the test history instead of the wall clock.
+// Nothing here is compiled into a normal build.
+
+// VerifSession is a copy of one entry of the session table.
+type VerifSession struct {
+	ID        string
+	UserID    int64
+	CreatedAt time.Time
+	ExpiresAt time.Time
+}
+
+// VerifSessions returns a copy of the session table sorted by session id.
+func VerifSessions() []VerifSession {
+	var out []VerifSession
+	for _, s := range verifAll() {
+		out = append(out, VerifSession{ID: s.ID, UserID: s.UserID, CreatedAt: s.CreatedAt, ExpiresAt: s.ExpiresAt})
+	}
+	sort.Slice(out, func(i, j int) bool { return out[i].ID < out[j].ID })
+	return out
+}
+
+// VerifSessionCount returns the number of entries in the session table.
+func VerifSessionCount() int { return len(verifAll()) }
+
+func verifAll() []*Session {
+	var all []*Session
+	for s := range sessionStore.Items() {
+		all = append(all, s)
+	}
+	return all
+}
+
+// VerifShiftSessions moves the expiry of every stored session d into the past,
+// which is indistinguishable from the clock advancing by d.
+func VerifShiftSessions(d time.Duration) {
+	for _, s := range verifAll() {
+		s.ExpiresAt = s.ExpiresAt.Add(-d)
+		s.CreatedAt = s.CreatedAt.Add(-d)
+		sessionStore.Set(s.ID, s)
+	}
+}
+
+// VerifResetSessions empties the session table.
+func VerifResetSessions() {
+	for _, s := range verifAll() {
+		sessionStore.Delete(s.ID)
+	}
+}
+
+// VerifRunGC performs one pass of the session garbage collector as of `now`.
+// The loop below restates the body of the ticker loop in StartSessionGC (which
+// is a closure and cannot be called); the driver checks on every run that the
+// text of that loop in session.go is still the one restated here.
+func VerifRunGC(now time.Time) {
+	for item := range sessionStore.Items() {
+		if item.ExpiresAt.Before(now) {
+			sessionStore.Delete(item.ID)
+		}
+	}
+}
+
+// Verif constants of the session policy, for the harness' boundary generator.
+const (
+	VerifLifetime        = defaultLifetime
+	VerifExtendThreshold = extendThreshold
+)
